@@ -13,9 +13,11 @@ order with cancelled entries left in place; worker iterations as `poll`/`wake`).
   iterations of any number of workers, with arbitrary (equal, past) time points and identifiers.  Every public method is
   one lock region, so an interleaving of threads is an operation list.
 
-Two client programs are modelled below that level: `interval()`'s stop callback as a lock program (`runProg`) and the stop
-handshake between `~scheduler()` and the worker as a micro-step model (`Stop.*`, every interleaving).  Four defects of the
-pinned code are kept as `decide`d witnesses on as-is variants (`c12_asis_*`).
+Below that level three things are modelled as programs over the scheduler mutex: `interval()`'s stop callback and the
+worker's loop body (`workerIter`: which part of an iteration runs under `_mx` and which does not — the promise is resolved
+with `_mx` released, so an awaiter that is a callback may call the scheduler again) as lock programs (`runProg`), and the
+stop handshake between `~scheduler()` and the worker as a micro-step model (`Stop.*`, every interleaving).  Five defects
+of the pinned code are kept as witnesses on as-is variants (`c12_asis_*`).
 -/
 namespace Cocls.Sched
 
@@ -175,12 +177,15 @@ theorem c12_nothing_due_withheld {H : Heap} (hH : HeapSpec H) {s : State} (h : R
 
 /-- A worker parked in `wait_until(d)` has `d ≤` the time point of every pending sleep, in every reachable state, for any
 number of workers and whatever other threads did in between (`schedule` of an earlier time point notifies, see
-`c12_schedule_notify`).  The steps are the code's lock regions: a worker iteration (`Op.poll`: stop check, clock read,
-`get_expired_lk`, resolve — or `wait_until`, which releases `_mx` atomically) is ONE region, so `Reachable` ranges over
-every interleaving of public calls of other threads with the worker's iterations at exactly the granularity at which
-the real threads can interleave (the harness' `worker-lock-regions` suite stalls the real worker in front of every
+`c12_schedule_notify`).  The steps are the code's lock regions: of a worker iteration the part that matters (`Op.poll`:
+stop check, clock read, `get_expired_lk`, then `wait_until`, which releases `_mx` atomically — or `lk.unlock()` when a
+promise was handed out) is ONE region; the resolution of the promise happens outside of it (`c12_worker_resolves_unlocked`)
+and is followed by a region that only evaluates the loop condition.  So `Reachable` ranges over
+every interleaving of public calls of other threads (and of callbacks run by the worker itself) with the worker's
+iterations at exactly the granularity at which the real threads can interleave (the harness' `worker-lock-regions`
+suite stalls the real worker in front of every
 acquisition of `_mx` and runs public calls there).  `c12_asis_gap_stale_wait` shows that the statement fails as soon as
-an iteration is split into two regions.  Under virtual time an idle worker therefore wakes no later than the earliest deadline, and
+the mutex is dropped between computing the time point and `wait_until`.  Under virtual time an idle worker therefore wakes no later than the earliest deadline, and
 `c12_nothing_due_withheld` + `c12_never_early_step` say that the iteration after the wake-up hands out exactly what is due. -/
 theorem c12_worker_not_late {H : Heap} (hH : HeapSpec H) {s : State} (h : Reachable H s) :
     ∀ p ∈ s.waits, ∀ y ∈ s.heap, y.alive = true → waitOk p.2 y.tp :=
@@ -241,6 +246,118 @@ theorem c12_schedule_notify (H : Heap) (s : State) (tp id : Nat) :
   | nil => simp
   | cons x xs =>
     by_cases hgt : x.tp > tp <;> simp [hgt]
+
+/-! ## the worker resolves with `_mx` released (fix db0b685) -/
+
+/-- What the repair buys.  The worker's loop body (`workerIter`: `lk.lock()`, stop check, `get_expired_lk(now)`,
+`lk.unlock()`, `x()`, `lk.lock()`, loop condition, `lk.unlock()`) always runs to its end on the worker's own thread, in
+every state, at every clock reading, and whatever public calls `cb` — any number of `schedule()` / `sleep_until()` /
+`cancel()` / `remove()` / `get_expired()` — the awaiter of the resolved promise makes from inside `x()` (a `make_promise`
+callback re-arming its timer, a timeout handler cancelling another sleeper): the worker holds no lock while the promise
+is resolved, so it cannot block on itself.  It ends with `_mx` released and its effect is exactly the operation list
+`poll w now :: cb` (`afterIter`), to which every theorem of this file applies (`c12_worker_callback_reachable`). -/
+theorem c12_worker_resolves_unlocked (H : Heap) (s : State) (w now : Nat) (cb : List Op) :
+    ∃ m, runProg H (workerIter w now cb) { s := s } = some m ∧ m.owner = false ∧ m.got = none ∧
+      m.s = afterIter H s w now cb := by
+  unfold workerIter afterIter
+  cases hr : step H s (Op.poll w now) with
+  | mk s1 r =>
+    cases r <;> simp [runProg, hr]
+
+/-- … in particular `_mx` is free at the moment `x()` is entered: the prefix of the loop body up to the resolution ends
+with the lock released, whatever `get_expired_lk` returned. -/
+theorem c12_worker_unlocked_at_resolution (H : Heap) (s : State) (w now : Nat) :
+    ∃ m, runProg H ((workerIter w now []).take 3) { s := s } = some m ∧ m.owner = false ∧
+      m.s = (step H s (Op.poll w now)).1 := by
+  cases hr : step H s (Op.poll w now) with
+  | mk s1 r =>
+    cases r <;> simp [workerIter, runProg, hr]
+
+/-- The state after an iteration whose callback called the scheduler again is reachable, hence satisfies the invariant:
+never early, deadline order, exactly once, no worker parked past a pending time point — also for the sleeps the
+callback scheduled or cancelled. -/
+theorem c12_worker_callback_reachable {H : Heap} {s : State} (h : Reachable H s) (w now : Nat) (cb : List Op) :
+    Reachable H (afterIter H s w now cb) := by
+  obtain ⟨ops, rfl⟩ := h
+  unfold afterIter
+  cases hr : step H (run H init ops) (Op.poll w now) with
+  | mk s1 r =>
+    have h1 : s1 = run H init (ops ++ [Op.poll w now]) := by
+      simp [run, List.foldl_append] at hr ⊢
+      rw [hr]
+    cases r with
+    | expired e => exact ⟨ops ++ [Op.poll w now] ++ cb, by simp only [h1, run, List.foldl_append]⟩
+    | _ => exact ⟨ops ++ [Op.poll w now], h1⟩
+
+/-- The loop body as it was (`x()` called with `_mx` held, /repo before db0b685) never returns as soon as a sleep is due
+whose awaiter calls the scheduler again — in every state, for every such call: the worker blocks on the mutex it
+owns.  (Replayed on the header: corpus/c12mt_callback_reenter.txt — the harness' mutex reports the relock by its owner.) -/
+theorem c12_asis_worker_callback_deadlock (H : Heap) (s : State) (w now : Nat) (e : Entry) (op : Op) (cb : List Op)
+    (hdue : (step H s (Op.poll w now)).2 = Res.expired e) :
+    runProg H (workerIterAsIs w now (op :: cb)) { s := s } = none := by
+  unfold workerIterAsIs
+  cases hr : step H s (Op.poll w now) with
+  | mk s1 r =>
+    rw [hr] at hdue
+    simp at hdue
+    subst hdue
+    simp [runProg, hr]
+
+/-- the state of the witnesses below: a timer until 5 (identifier 1) and a sleeper until 8 (identifier 2) -/
+def cbDemo : State := run stdHeap init [Op.schedule 5 1, Op.schedule 8 2]
+
+/-- Concrete witness: at clock 5 the timer is due.  As it was, the worker hangs both when the timer's callback re-arms it
+(`sleep_until(10, 1)`) and when it cancels the other sleeper (`cancel(2)`); repaired, the first leaves `8, 10` pending
+and the second completes sleeper 1 (serial) with `await_canceled_exception`, both with `_mx` released at the end. -/
+theorem c12_asis_worker_callback_deadlock_witness :
+    (step stdHeap cbDemo (Op.poll 0 5)).2 = Res.expired { serial := 0, tp := 5, id := 1, alive := true } ∧
+    (runProg stdHeap (workerIterAsIs 0 5 [Op.schedule 10 1]) { s := cbDemo }).isNone = true ∧
+    (runProg stdHeap (workerIterAsIs 0 5 [Op.cancel 2 0]) { s := cbDemo }).isNone = true ∧
+    (runProg stdHeap (workerIter 0 5 [Op.schedule 10 1]) { s := cbDemo }).map
+        (fun m => (m.owner, m.s.heap.map (fun e => (e.tp, e.id, e.alive)), m.s.log.map (fun d => (d.serial, d.fate))))
+      = some (false, [(8, 2, true), (10, 1, true)], [(0, Fate.expired 5)]) ∧
+    (runProg stdHeap (workerIter 0 5 [Op.cancel 2 0]) { s := cbDemo }).map
+        (fun m => (m.owner, m.s.heap.map (fun e => (e.tp, e.id, e.alive)), m.s.log.map (fun d => (d.serial, d.fate))))
+      = some (false, [], [(0, Fate.expired 5), (1, Fate.cancelled 0)]) :=
+  ⟨by decide, by decide, by decide, by decide, by decide⟩
+
+/-- Why the pinned code's own tests never saw it: with awaiters that are coroutines (they are only made ready by `x()`,
+`cb = []`) the old loop body terminates with the same effect as the repaired one. -/
+theorem c12_asis_worker_ok_without_callback (H : Heap) (s : State) (w now : Nat) :
+    ∃ m, runProg H (workerIterAsIs w now []) { s := s } = some m ∧ m.owner = false ∧
+      m.s = afterIter H s w now [] := by
+  unfold workerIterAsIs afterIter
+  cases hr : step H s (Op.poll w now) with
+  | mk s1 r =>
+    cases r <;> simp [runProg, hr, run]
+
+/-- What the hang meant for everybody else: a worker that stays in its lock region (`locked`: it owns `_mx` and never
+gets to `lk.unlock()` / `wait_until`) keeps the stop callback of `~scheduler()` in front of the mutex for ever — whatever
+the stopping thread does, `request_stop()` never completes, so `~scheduler()` never returns (and every other public
+call, which starts with the same `lock_guard`, blocks the same way). -/
+theorem c12_asis_stuck_worker_blocks_destruction (acts : List Stop.Act) (h : ∀ a ∈ acts, a.isStopper = true) :
+    (Stop.run Stop.step { w := Stop.WPc.locked } acts).w = Stop.WPc.locked ∧
+    ((Stop.run Stop.step { w := Stop.WPc.locked } acts).sp = Stop.SPc.start ∨
+     (Stop.run Stop.step { w := Stop.WPc.locked } acts).sp = Stop.SPc.flagged) := by
+  have key : ∀ (acts : List Stop.Act) (s : Stop.St), (∀ a ∈ acts, a.isStopper = true) → s.w = Stop.WPc.locked →
+      (s.sp = Stop.SPc.start ∨ s.sp = Stop.SPc.flagged) →
+      (Stop.run Stop.step s acts).w = Stop.WPc.locked ∧
+      ((Stop.run Stop.step s acts).sp = Stop.SPc.start ∨ (Stop.run Stop.step s acts).sp = Stop.SPc.flagged) := by
+    intro acts
+    induction acts with
+    | nil => intro s _ hw hs; exact ⟨hw, hs⟩
+    | cons a acts ih =>
+      intro s ha hw hs
+      have ha' : ∀ b ∈ acts, b.isStopper = true := fun b hb => ha b (List.mem_cons_of_mem _ hb)
+      have h0 := ha a List.mem_cons_self
+      simp only [Stop.run, List.foldl_cons]
+      obtain ⟨w, sp, flag⟩ := s
+      simp only at hw hs
+      subst hw
+      cases a <;> simp [Stop.Act.isStopper] at h0 <;>
+        rcases hs with hs | hs <;> subst hs <;>
+        exact ih _ ha' (by simp [Stop.step]) (by simp [Stop.step])
+  exact key acts _ h rfl (Or.inl rfl)
 
 /-! ## cancel / remove -/
 
@@ -423,25 +540,53 @@ theorem c12_asis_gap_stop_lost :
       Stop.Act.sNotify, Stop.Act.sUnlock, Stop.Act.wRelockWait]) := ⟨by decide, by decide⟩
 
 /-- The stop request of `~scheduler()` (and of `start()` when its awaitable completes) is never lost, for every
-interleaving of the worker's and the stopper's steps and whatever the vector holds: once `request_stop()` has returned,
-the worker is not parked in `wait_until` — it has exited or is on its way to the stop check, which it fails (the flag is
-set) — so destruction never has to wait for a sleeper's deadline (or forever, on an empty vector). -/
+interleaving of the worker's and the stopper's steps and whatever the vector holds — including a request that arrives
+while the worker is resolving a promise with `_mx` released (`resolving`, fix db0b685): once `request_stop()` has
+returned, the worker is not parked in `wait_until` — it has exited, or it is at the loop top on its way to the stop
+check, or it is resolving and on its way to the loop condition, and either test fails (the flag is set) — so
+destruction never has to wait for a sleeper's deadline (or forever, on an empty vector). -/
 theorem c12_stop_not_lost (acts : List Stop.Act) :
     ¬ Stop.Lost (Stop.run Stop.step {} acts) ∧
     ((Stop.run Stop.step {} acts).sp = Stop.SPc.done →
       ((Stop.run Stop.step {} acts).w = Stop.WPc.exited ∨
        Stop.step (Stop.run Stop.step {} acts) Stop.Act.wLock =
+         some { Stop.run Stop.step {} acts with w := Stop.WPc.exited } ∨
+       Stop.step (Stop.run Stop.step {} acts) Stop.Act.wRelock =
          some { Stop.run Stop.step {} acts with w := Stop.WPc.exited })) := by
   have hi : Stop.Inv (Stop.run Stop.step {} acts) :=
     Stop.inv_run acts {} ⟨by simp, by simp, by simp, by simp⟩
   constructor
   · rintro ⟨h1, h2⟩
-    rcases hi.after (Or.inr h1) with h | h <;> rw [h2] at h <;> cases h
+    rcases hi.after (Or.inr h1) with h | h | h <;> rw [h2] at h <;> cases h
   · intro hd
     have hf := hi.flagged (by rw [hd]; simp)
-    rcases hi.after (Or.inr hd) with h | h
-    · right; simp [Stop.step, Stop.workerStep, h, hd, hf]
+    rcases hi.after (Or.inr hd) with h | h | h
+    · right; left; simp [Stop.step, Stop.workerStep, h, hd, hf]
     · left; exact h
+    · right; right; simp [Stop.step, Stop.workerStep, h, hd, hf]
+
+/-- … and nothing else is open to it: after the stop request has completed, every step of the machine that is enabled
+at all ends the worker (no further iteration, no further wait). -/
+theorem c12_stop_then_worker_exits (acts : List Stop.Act) (a : Stop.Act) (s' : Stop.St)
+    (hd : (Stop.run Stop.step {} acts).sp = Stop.SPc.done)
+    (hs : Stop.step (Stop.run Stop.step {} acts) a = some s') : s'.w = Stop.WPc.exited := by
+  have hi : Stop.Inv (Stop.run Stop.step {} acts) :=
+    Stop.inv_run acts {} ⟨by simp, by simp, by simp, by simp⟩
+  have hf := hi.flagged (by rw [hd]; simp)
+  generalize Stop.run Stop.step {} acts = s at *
+  obtain ⟨w, sp, flag⟩ := s
+  simp only at hd hf
+  subst hd hf
+  have ha := hi.after (Or.inr rfl)
+  simp only at ha
+  cases a <;> rcases ha with h | h | h <;> subst h <;> simp [Stop.step, Stop.workerStep] at hs <;> (subst hs; rfl)
+
+/-- a stop request that arrives while the worker resolves a promise without the mutex: the loop condition after the
+re-lock sees it -/
+theorem c12_stop_while_resolving :
+    Stop.run Stop.step {} [Stop.Act.wLock, Stop.Act.wPollResolve, Stop.Act.sFlag, Stop.Act.sLock,
+      Stop.Act.sNotify, Stop.Act.sUnlock, Stop.Act.wRelock] = { w := Stop.WPc.exited, sp := Stop.SPc.done, flag := true } := by
+  decide
 
 /-- The callback as it was (`_cond.notify_all()` without `_mx`) loses the request when it arrives between the worker's
 stop check and its `wait_until`: the worker parks although the stop request is complete, and nothing but the deadline
